@@ -15,7 +15,7 @@ def strategy(env):
     tr = st.fixed_dictionaries(dict(blocks=st.lists(st.tuples(pidx, st.integers(0, 9).map(lambda x: x == 0)), min_size=1, max_size=14), rev_before=st.lists(pidx, max_size=3), rev_after=st.lists(pidx, max_size=3),
                                     split=st.sampled_from([0, 0, 3]), same_uuid=st.booleans()))
     return st.fixed_dictionaries(dict(fs=st.integers(0, len(c03.FSCFG) - 1), fmt64=st.booleans(), csum=st.sampled_from([0, 1, 2, 3]), **{'async': st.booleans()}, seq0=st.sampled_from([1, 77, 0xfffffffd]), start_mode=st.integers(0, 1), start=st.integers(0, 5000),
-                                      seed=st.integers(0, 1 << 20), trans=st.lists(tr, min_size=1, max_size=5), fe=st.integers(0, len(FRONTENDS) - 1), mask_seed=st.integers(0, 1 << 20), dmg=st.sampled_from([0, 0, 0, 1]), dmg_at=st.integers(0, 4)))
+                                      seed=st.integers(0, 1 << 20), trans=st.lists(tr, min_size=1, max_size=5), fe=st.integers(0, len(FRONTENDS) - 1), mask_seed=st.integers(0, 1 << 20), dmg=st.sampled_from([0, 0, 0, 1]), dmg_at=st.integers(0, 4), tail=st.sampled_from([0, 0, 1, 4, 5, 7])))
 
 def envinit(widx):
     env = hyp.img_env(widx, variants=('asan',)); env['base'] = {}
@@ -33,7 +33,7 @@ def body(case, env):
     base, pool = b; bs = cfg['bs']; d = env['dir']; tp = env['plain']; ta = env['asan']
     # one case in four carries a logged data block with a broken checksum (v2/v3 journals): jbd2 skips that block, reports the error and resets the journal - the ordering
     # of fsync / journal reset must hold on that path too
-    spec = dict(case, damage=(jbd2.DAMAGE.index('data-csum') if case.get('dmg') else 0), damage_at=case.get('dmg_at', 0))
+    spec = dict(c03.with_tail(case), damage=(jbd2.DAMAGE.index('data-csum') if case.get('dmg') else 0), damage_at=case.get('dmg_at', 0))
     img = os.path.join(d, 'c04.img'); shutil.copyfile(base, img); jimg = None
     if jbase: jimg = os.path.join(d, 'c04.jnl'); shutil.copyfile(jbase, jimg); classes.append('external-journal')
     try: expected, touched, candidates, poisoned, info = jbd2.write_journal(img, spec, pool, ext=jimg)
@@ -55,6 +55,7 @@ def body(case, env):
     def blk(buf, n): return buf[n * bs:(n + 1) * bs]
     with open(base, 'rb') as f: orig = f.read()
     damaged = info['damage'] != 'none'
+    if case.get('tail'): classes.append('revoke-only-tail:%d' % case['tail'])
     if damaged: classes.append('journal-with-bad-data-checksum')
     for n in pool:
         if not damaged and blk(R, n) != expected.get(n, blk(orig, n)): return (dict(obs, kind='uninterrupted-recovery-differs-from-model', block=n), fp, True, None, classes)
